@@ -25,7 +25,7 @@ use std::io::Write;
 fn main() {
     let args: Vec<String> = std::env::args().collect();
     if args.len() < 2 {
-        eprintln!("usage: vp_harness <stream> [--seed N] [--tier quick|thorough] [--out FILE]");
+        eprintln!("usage: vp_harness <stream> [--seed N] [--tier quick|thorough] [--out FILE] [--only SUBSTREAM]");
         std::process::exit(2);
     }
     let stream = args[1].clone();
@@ -41,6 +41,10 @@ fn main() {
             }
             "--tier" => {
                 thorough = args[i + 1] == "thorough";
+                i += 2;
+            }
+            "--only" => {
+                common::ONLY.set(args[i + 1].clone()).ok();
                 i += 2;
             }
             "--out" => {
